@@ -824,6 +824,14 @@ pub struct TargetsCase {
     /// The server listens on the wildcard address (0.0.0.0:port) and advertises 127.0.0.1:port.
     #[serde(default)]
     pub wildcard_listen: bool,
+    /// Every round a SYN of *another cluster* arrives from the address of each silent peer (a node
+    /// of another cluster started on a dead member's address): it must change nothing.
+    #[serde(default)]
+    pub foreign_from_dead: bool,
+    /// The application holds the state lock across every tick (from 10 ms before to 10 ms after):
+    /// the round must still take place once the lock is free.
+    #[serde(default)]
+    pub lock_at_ticks: bool,
 }
 
 pub fn exec_targets(case: &TargetsCase, tally: &mut Tally) -> Result<(), Failure> {
@@ -890,6 +898,11 @@ pub fn exec_targets(case: &TargetsCase, tally: &mut Tally) -> Result<(), Failure
         let n_live = if case.hostname_seed { 0 } else { (case.live as usize).min(n_peers) };
         let n_rounds = if case.hostname_seed { 62 + 110 } else { (case.rounds % 14 + 3) as u64 };
         let mut literal_seed_after_refresh = 0u32;
+        if case.lock_at_ticks && !case.hostname_seed {
+            // shift the observation windows by 10 ms so that the ticks (every interval from the
+            // spawn) fall inside the 20 ms during which the lock is held
+            tokio::time::sleep(Duration::from_millis(10)).await;
+        }
         for round in 0..n_rounds {
             // digest from peer 0: all peers, the first n_live with increasing heartbeats
             if n_peers > 0 {
@@ -899,8 +912,23 @@ pub fn exec_targets(case: &TargetsCase, tally: &mut Tally) -> Result<(), Failure
                 let (bytes, _) = encode_msg(&WMsg::Syn { cluster_id: "c".into(), digest: d }, Blocking::Canonical);
                 let _ = tx.send(RecvItem::Msg(peer_ids[0].to_real().gossip_advertise_addr, real_decode(&bytes).expect("decodes").0));
             }
+            if case.foreign_from_dead {
+                let (bytes, _) = encode_msg(&WMsg::Syn { cluster_id: "another-cluster".into(), digest: vec![] }, Blocking::Canonical);
+                for p in &peer_ids[n_live..] {
+                    let _ = tx.send(RecvItem::Msg(p.to_real().gossip_advertise_addr, real_decode(&bytes).expect("decodes").0));
+                }
+            }
             let before = shared.lock().unwrap().sent.len();
-            tokio::time::sleep(interval).await;
+            if case.lock_at_ticks && !case.hostname_seed {
+                tokio::time::sleep(interval - Duration::from_millis(21)).await;
+                let chitchat = handle.chitchat();
+                let held = chitchat.lock().await;
+                tokio::time::sleep(Duration::from_millis(20)).await;
+                drop(held);
+                tokio::time::sleep(Duration::from_millis(1)).await;
+            } else {
+                tokio::time::sleep(interval).await;
+            }
             let sent: Vec<(SocketAddr, &'static str, bool)> = shared.lock().unwrap().sent[before..].to_vec();
             let syns: Vec<SocketAddr> = sent.iter().filter(|(_, k, _)| *k == "SYN").map(|(a, _, _)| *a).collect();
             if syns.len() > 5 {
@@ -976,6 +1004,12 @@ pub fn exec_targets(case: &TargetsCase, tally: &mut Tally) -> Result<(), Failure
         if case.wildcard_listen && case.seeds & 2 != 0 {
             tally.label("wildcard_listen_own_address_among_seeds");
         }
+        if case.foreign_from_dead && n_live < n_peers {
+            tally.label("foreign_syns_from_dead_peers_addresses");
+        }
+        if case.lock_at_ticks {
+            tally.label("state_lock_held_across_every_tick");
+        }
         if case.seeds & 5 == 4 && n_live == 0 && n_peers >= 4 {
             tally.label("only_seed_is_a_dead_peer");
         }
@@ -993,8 +1027,8 @@ pub fn exec_targets(case: &TargetsCase, tally: &mut Tally) -> Result<(), Failure
 }
 
 pub fn targets_strategy() -> impl Strategy<Value = TargetsCase> {
-    (0u8..13, 0u8..13, 0u8..8, 0u8..16, prop_oneof![2 => Just(0u16), 1 => any::<u16>()], proptest::bool::weighted(0.3), proptest::bool::weighted(0.04), proptest::bool::weighted(0.3))
-        .prop_map(|(peers, live, seeds, rounds, failing_peers, predicate, hostname_seed, wildcard_listen)| TargetsCase { peers, live, seeds, rounds, failing_peers, predicate, hostname_seed, wildcard_listen })
+    (0u8..13, 0u8..13, 0u8..8, 0u8..16, prop_oneof![2 => Just(0u16), 1 => any::<u16>()], proptest::bool::weighted(0.3), proptest::bool::weighted(0.04), proptest::bool::weighted(0.3), (proptest::bool::weighted(0.25), proptest::bool::weighted(0.2)))
+        .prop_map(|(peers, live, seeds, rounds, failing_peers, predicate, hostname_seed, wildcard_listen, (foreign_from_dead, lock_at_ticks))| TargetsCase { peers, live, seeds, rounds, failing_peers, predicate, hostname_seed, wildcard_listen, foreign_from_dead, lock_at_ticks })
 }
 
 pub fn run_targets(ctx: &Ctx, report: &mut Report) {
